@@ -37,6 +37,7 @@ func checkC03(r *Run) propMeta {
 	checkRewriterCaseForms(r, r.MustPkg("cypher/models/pgsql/translate"))
 	checkWithPathAliasAgreement(r, r.MustPkg("cypher/models/pgsql/translate"))
 	checkUnwindBeforeHarness(r, r.MustPkg("cypher/models/pgsql/translate"))
+	checkCopyWrittenBack(r, "C03-o-copy-written-back", "A row source appended to the copy's FROM list never reaches the statement, while the projection and the filters still name what it was to define.", r.MustPkg("cypher/models/pgsql/translate"))
 	r.Floor("C03-a-parameter-closure", 5)
 	r.Floor("C03-b-dml-origin", 5) // node and edge creation, deletion, update, and at least one harness insert (harness builders may share one constructor)
 	r.Floor("C03-d-walk-error", 5)
